@@ -247,3 +247,150 @@ Proof.
   destruct (srv_step c st o) as [st' r] eqn:S. cbn [fst snd] in *.
   constructor; [cbn [fst snd]; destruct o; auto; rewrite S in M; exact M|]. eapply IH; eauto. rewrite Ok. exact W.
 Qed.
+
+(* ------------------------------------------------------------------ the monitor (safety clauses) accepts every trace of the model *)
+From BT Require Import AttSrv.AttSrvNotifSpec AttSrv.AttSrvSpecC11 AttSrv.AttSrvNotifObs AttSrv.AttSrvProofsC08.
+
+(* simulation invariant: when the observer waits for a confirmation, so does the queue of the model *)
+Definition sim11 (st : srv_state) (m : obs) : Prop :=
+  length (ob_conns m) = length (conns st)
+  /\ forall cid k, get_conn st cid = Some k -> o_out (oc_at m cid) = true -> out_of k <> None.
+
+Lemma sim11_init c : sim11 (srv_init c) (obs_init c).
+Proof.
+  split; [unfold obs_init, srv_init; cbn [ob_conns conns]; rewrite !repeat_length; reflexivity|].
+  intros cid k G. unfold oc_at, obs_init. cbn [ob_conns].
+  assert (Hc : (cid < n_conns)%nat).
+  { apply nth_error_lt in G. unfold srv_init in G. cbn [conns] in G. rewrite repeat_length in G. exact G. }
+  rewrite repeat_nth by exact Hc. cbn [oc_init o_out]. discriminate.
+Qed.
+
+Lemma att_input_opcode30 c st cid pdu n k :
+  get_conn st cid = Some k -> rd pdu 0 = Some 30 -> default_att_mtu <= N.min n (negotiated_mtu c k) ->
+  att_input c st cid pdu n =
+  match handle_confirmation c st cid pdu (repeat fill_byte (N.to_nat n)) (N.min n (negotiated_mtu c k)) with
+  | Some (st', (b', m)) => if m <=? len b' then Some (st', takeN m b') else None
+  | None => None
+  end.
+Proof.
+  intros G Hop L. unfold att_input. rewrite G.
+  assert (len pdu =? 0 = false) as ->.
+  { apply N.eqb_neq. unfold rd in Hop. destruct (0 <? len pdu) eqn:E; [|discriminate]. apply N.ltb_lt in E. lia. }
+  replace (N.min n (negotiated_mtu c k) <? default_att_mtu) with false by (symmetry; apply N.ltb_ge; exact L).
+  rewrite Hop. cbn [N.eqb Pos.eqb]. destruct (handle_confirmation _ _ _ _ _ _) as [[s1 [b1 m]]|]; reflexivity.
+Qed.
+
+Lemma confirmation_answer c st cid rest n st' rs :
+  att_input c st cid (30 :: rest) n = Some (st', rs) ->
+  match rest with [] => rs = [] | _ => rs = [1; 30; 0; 0; 4] end.
+Proof.
+  intros A. destruct (att_input_success _ _ _ _ _ _ _ A) as (k & op & G & L & M & Hop).
+  rewrite (att_input_opcode30 c st cid (30 :: rest) n k G eq_refl M) in A.
+  destruct rest as [|x t].
+  - destruct (confirmation_good c st cid (repeat fill_byte (N.to_nat n)) (N.min n (negotiated_mtu c k)) k G) as (HC & _).
+    rewrite HC in A. destruct (0 <=? _); [|discriminate]. inv A. reflexivity.
+  - destruct (handle_confirmation _ _ _ _ _ _) as [[s1 [b1 mm]]|] eqn:HC; [|discriminate].
+    assert (H5 : 5 <= N.min n (negotiated_mtu c k)) by (unfold default_att_mtu in M; lia).
+    destruct (confirmation_bad_length c st cid (30 :: x :: t) _ _ _ _ H5 eq_refl ltac:(unfold len; cbn [length]; lia) HC) as (_ & S5 & T5).
+    cbn [fst snd] in S5, T5. subst mm. destruct (5 <=? len b1); [|discriminate]. inv A. exact T5.
+Qed.
+
+Lemma check11_core_ok c st m o :
+  sim11 st m -> snd (srv_step c st o) <> OFault -> check11_core c m o (snd (srv_step c st o)) = None.
+Proof.
+  intros [SL S] NF. destruct o as [cid pdu n|cid n|cid e p|cid|bu kd g|g|g data]; cbn [srv_step] in *.
+  - destruct (att_input c st cid pdu n) as [[st' rs]|] eqn:A; cbn [snd] in *; [|contradiction].
+    destruct (att_input_success _ _ _ _ _ _ _ A) as (k & op & G & L & M & Hop).
+    destruct pdu as [|a rest]; [reflexivity|].
+    destruct (N.eq_dec a 30) as [->|Na].
+    + cbn [check11_core]. replace (n <? default_att_mtu) with false by (symmetry; apply N.ltb_ge; lia).
+      pose proof (confirmation_answer _ _ _ _ _ _ _ A) as X.
+      destruct rest as [|x t]; rewrite X; reflexivity.
+    + cbn [check11_core]. destruct a as [|p]; [reflexivity|]. repeat (destruct p as [p|p|]; try reflexivity). exfalso. apply Na. reflexivity.
+  - destruct (att_output c st cid n) as [[st' rs]|] eqn:A; cbn [snd] in *; [|contradiction].
+    assert (exists k, get_conn st cid = Some k) as (k & G).
+    { unfold att_output in A. destruct (get_conn st cid); [eauto|discriminate]. }
+    cbn [check11_core]. destruct rs as [|opc t]; [reflexivity|].
+    destruct (opc =? 29) eqn:E; [|reflexivity]. apply N.eqb_eq in E. subst opc.
+    destruct (o_out (oc_at m cid)) eqn:O; [|reflexivity]. exfalso.
+    destruct (att_output_outstanding _ _ _ _ _ _ _ G A) as (k' & _ & M1 & _). exact (S _ _ G O M1).
+  - destruct (get_conn st cid); reflexivity.
+  - reflexivity.
+  - destruct bu.
+    + destruct (by_uuid_available c kd g); [|reflexivity]. destruct (notify_by_uuid c st kd g) as [[s r]|]; cbn [snd] in *; [reflexivity|contradiction].
+    + destruct (by_value_available c g); [|reflexivity]. destruct (notify_by_value c st kd g) as [[s r]|]; cbn [snd] in *; [reflexivity|contradiction].
+  - destruct (has_var c g) as [[w h]|]; reflexivity.
+  - destruct (has_var c g) as [[[|] h]|]; reflexivity.
+Qed.
+
+Lemma core_eff_out c st m o cid x :
+  snd (srv_step c st o) <> OFault ->
+  snd (core_eff c m o (snd (srv_step c st o)) cid x) = true ->
+  (snd x = true /\ ends_wait cid o = false)
+  \/ (exists n t, o = OpOut cid n /\ snd (srv_step c st o) = OBytes (29 :: t)).
+Proof.
+  intros NF. destruct x as [[mtu enc] out].
+  destruct o as [i pdu n|i n|i e p|i|bu kd g|g|g data]; cbn [srv_step ends_wait] in *.
+  - destruct (att_input c st i pdu n) as [[st' rs]|] eqn:A; cbn [snd] in *; [|contradiction].
+    destruct (att_input_success _ _ _ _ _ _ _ A) as (k & op & G & L & M & Hop).
+    rewrite (core_in_classified c m i pdu n rs cid (mtu, enc, out)). rewrite L.
+    replace (n <? default_att_mtu) with false by (symmetry; apply N.ltb_ge; lia).
+    destruct (Nat.eqb i cid) eqn:Ei; cbn [negb orb fst snd].
+    + destruct (classify pdu) as [lo hi| |] eqn:Cl.
+      * apply classify_mtu in Cl. subst pdu. intros H. left. split; [destruct (_ && _); exact H|reflexivity].
+      * discriminate.
+      * intros H. left. split; [exact H|].
+        destruct pdu as [|a [|b t]]; try reflexivity;
+          (destruct a as [|p]; try reflexivity; repeat (destruct p as [p|p|]; try reflexivity); discriminate Cl).
+    + intros H. left. split; [exact H|].
+      destruct pdu as [|a [|b t]]; try reflexivity;
+        (destruct a as [|p]; try reflexivity; repeat (destruct p as [p|p|]; try reflexivity); exact Ei).
+  - destruct (att_output c st i n) as [[st' rs]|]; cbn [snd] in *; [|contradiction].
+    cbn [core_eff]. destruct rs as [|a [|b [|d t]]]; try (intros H; left; split; [exact H|reflexivity]).
+    destruct (Nat.eqb i cid && (a =? 29) && _) eqn:Cd; cbn [snd]; [|intros H; left; split; [exact H|reflexivity]].
+    intros _. right. apply andb_true_iff in Cd. destruct Cd as [Cd _]. apply andb_true_iff in Cd. destruct Cd as [C1 C2].
+    apply Nat.eqb_eq in C1. apply N.eqb_eq in C2. subst. eauto.
+  - intros H. left. split; [|reflexivity]. destruct (get_conn st i); cbn [snd core_eff] in H; destruct (Nat.eqb i cid); exact H.
+  - cbn [snd core_eff]. destruct (Nat.eqb i cid); cbn [snd]; [discriminate|]. intros H. left. auto.
+  - intros H. left. split; [|reflexivity]. destruct bu.
+    + destruct (by_uuid_available c kd g); [|exact H]. destruct (notify_by_uuid c st kd g) as [[s r]|]; exact H.
+    + destruct (by_value_available c g); [|exact H]. destruct (notify_by_value c st kd g) as [[s r]|]; exact H.
+  - intros H. left. split; [|reflexivity]. destruct (has_var c g) as [[w h]|]; exact H.
+  - intros H. left. split; [|reflexivity]. destruct (has_var c g) as [[[|] h]|]; exact H.
+Qed.
+
+Lemma sim11_step c st m o :
+  sim11 st m -> snd (srv_step c st o) <> OFault ->
+  sim11 (fst (srv_step c st o)) (advance c m o (snd (srv_step c st o))).
+Proof.
+  intros [SL S] NF. destruct (advance_follows c m o (snd (srv_step c st o))) as (AL & AC).
+  split; [rewrite AL, srv_step_length; exact SL|].
+  intros cid k' G' O'.
+  assert (Hc : (cid < length (conns st))%nat).
+  { rewrite <- (srv_step_length c st o). eapply nth_error_lt; eauto. }
+  destruct (nth_error (conns st) cid) as [k|] eqn:G; [|apply nth_error_None in G; lia].
+  assert (X : o_out (oc_at (advance c m o (snd (srv_step c st o))) cid)
+              = snd (core (oc_at (advance c m o (snd (srv_step c st o))) cid))) by reflexivity.
+  rewrite X, AC in O' by (rewrite SL; exact Hc).
+  destruct (core_eff_out c st m o cid _ NF O') as [[Ho Ne]|(n & t & -> & Er)].
+  - cbn [core snd] in Ho. pose proof (S _ _ G Ho) as W.
+    destruct (srv_step_keeps_waiting c st o cid k G W Ne) as ((k1 & G1 & O1) & _).
+    rewrite G1 in G'. inv G'. rewrite O1. exact W.
+  - cbn [srv_step] in *. destruct (att_output c st cid n) as [[st' rs]|] eqn:A; cbn [fst snd] in *; [|discriminate].
+    inv Er. destruct (att_output_outstanding _ _ _ _ _ _ _ G A) as (k1 & G1 & _ & M2).
+    rewrite G1 in G'. inv G'. exact M2.
+Qed.
+
+Theorem monitor11_core_accepts c : forall ops st m pos,
+  sim11 st m -> no_fault (srv_run c st ops) -> monitor_from_of check11_core c m pos (srv_run c st ops) = None.
+Proof.
+  induction ops as [|o t IH]; intros st m pos S NF; cbn [srv_run monitor_from_of]; [reflexivity|].
+  pose proof (check11_core_ok c st m o S) as CK. pose proof (sim11_step c st m o S) as ST.
+  destruct (srv_step c st o) as [st' r] eqn:E. cbn [fst snd] in *.
+  cbn [srv_run] in NF. rewrite E in NF. inversion NF as [|? ? NF1 NF2]; subst. cbn [snd] in NF1.
+  cbn [monitor_from_of]. unfold mstep_of. rewrite (CK NF1). apply IH; auto.
+Qed.
+
+Theorem monitor11_core_accepts_model c ops :
+  no_fault (srv_run c (srv_init c) ops) -> monitor11_core c (srv_run c (srv_init c) ops) = None.
+Proof. intros NF. apply monitor11_core_accepts; auto. apply sim11_init. Qed.
